@@ -1,6 +1,8 @@
 -- written by bin/mkroundpins from /repo at commit 472862f
 namespace Mps.SrcPins.SrcCmpSign
 def f_round1 : List String := [
+  "decl:_ a94b7286b68a45d300dc2cba",
+  "decl:round1 3ecfaaf8f03a10e937177e47",
   "round1.VerifyMessage 802d63134a23acda92d7513c",
   "round1.StoreMessage 802d63134a23acda92d7513c",
   "round1.Finalize a3da5d710ee9f87a5bc2b469",
@@ -8,6 +10,10 @@ def f_round1 : List String := [
   "round1.Number b4fc1b1a37769dc302afcc74"
 ]
 def f_round2 : List String := [
+  "decl:_ b47c42aab0281c87ec3f25de",
+  "decl:round2 28030a1caea157c6e0771c06",
+  "decl:broadcast2 7e3e8f57d540ba0c246b1bad",
+  "decl:message2 0a812470359f3e3512235c27",
   "round2.StoreBroadcastMessage 4c2c83288e9865487c9a20b0",
   "round2.VerifyMessage 72bf735c7c07c8ccd6484149",
   "round2.StoreMessage 802d63134a23acda92d7513c",
@@ -19,6 +25,10 @@ def f_round2 : List String := [
   "round2.Number afbf3b2d17fee1f6ce5e2421"
 ]
 def f_round3 : List String := [
+  "decl:_ b7100955b7674e785d6d5977",
+  "decl:round3 0deec25686fb296d9535f20a",
+  "decl:message3 514af7f1c19f0989a53f95cc",
+  "decl:broadcast3 f631118464425b4601298361",
   "round3.StoreBroadcastMessage af131a7cce22cc690c06c889",
   "round3.VerifyMessage 3214851312f115c425db1767",
   "round3.StoreMessage 8f7365ce6cc4cd901fb92838",
@@ -30,6 +40,10 @@ def f_round3 : List String := [
   "round3.Number 79c98029d401cf189a9ed9a5"
 ]
 def f_round4 : List String := [
+  "decl:_ f4b9c235445f4b034681722d",
+  "decl:round4 de90f1ae814b3bca1436a732",
+  "decl:message4 1cd858953adeb53018422204",
+  "decl:broadcast4 2b7863e68506a3e7bf957934",
   "round4.StoreBroadcastMessage 7db7708ddee5f121a247aed7",
   "round4.VerifyMessage 2773fb9097401f7d96b540e9",
   "round4.StoreMessage 802d63134a23acda92d7513c",
@@ -41,6 +55,9 @@ def f_round4 : List String := [
   "round4.Number 2f0406b57b2a5ab93a363714"
 ]
 def f_round5 : List String := [
+  "decl:_ 4b6cd88f4aacdde33ff2c574",
+  "decl:round5 d4a451f33bc3428eff237c05",
+  "decl:broadcast5 178b8b8b0da6fd110b3cd1e6",
   "round5.StoreBroadcastMessage 8f4584b7a1f306192a569bbe",
   "round5.VerifyMessage 802d63134a23acda92d7513c",
   "round5.StoreMessage 802d63134a23acda92d7513c",
@@ -51,6 +68,7 @@ def f_round5 : List String := [
   "round5.Number 3f92817c9481a77279e340a8"
 ]
 def f_sign : List String := [
+  "decl:protocolSignID,protocolSignRounds 435d802d5e3b25961e84c219",
   "StartSign de5a629fe41f71c7150ea967"
 ]
 def files : List String := [
